@@ -14,15 +14,18 @@
                   bad base64, duplicate member, null list element, ...): nothing is demanded.
        First non-ok member in document order decides (the converter is a one-pass stream processor).
        [j2p_spec] = encode_msg o denote.
-       With [strict = true] the denotation is restricted to the documents on which the converter AS CODED is
-       correct (no null members, no empty containers, ... see [denote] below); that is the domain of the
-       refinement theorem.  [strict = false] is the property's domain.
+       With [strict = true] the denotation is restricted by the decidable residue on which the converter is not byte-exact
+       (float32 double rounding, empty array of a packed field, payloads >= 2^31, field numbers out of range, fields
+       declared [packed=false]): that is the domain of the refinement and error theorems.  [strict = false] is the
+       property's domain; wherever the strict denotation is defined the two agree (J2PProofs.denote_top_rr).
 
-   (b) ALGORITHM LEVEL.  [sax_run]: conv/j2p/decode.go statement by statement over the event stream of the
-       parsed document ([events], document order = what sonic's ast.Preorder delivers): stack of frames
-       (kind, root message | field descriptor, position of the speculative length byte), globalFieldDesc,
-       inskip, output buffer as a byte list, [finish_spec] (model/ProtoSpecLen.v) on close.  Go nil
-       dereferences / slice-bound failures are explicit [MPanic] results. *)
+   (b) ALGORITHM LEVEL.  [sax_run]: conv/j2p/decode.go AS IT STANDS (after the repairs of findings 901..906 and of
+       [packed=false]) statement by statement over the event stream of the parsed document ([events], document order =
+       what sonic's ast.Preorder delivers): stack of STK_DEPTH = 256 frames (kind, root message | field descriptor,
+       position of the speculative length byte), globalFieldDesc, inskip, output buffer as a byte list, [finish_spec]
+       (model/ProtoSpecLen.v) on close, checkScalarField and the kind checks of the Begin callbacks.  Go nil dereferences /
+       slice-bound failures would be explicit [MPanic] results (none is reachable any more).
+       [frames_needed]: the exact number of frames a document uses. *)
 From Coq Require Import ZArith List Bool Arith.
 From DG Require Import CaseFormat ProtoWireRef ProtoSpecLen ProtoMsg Json Num Base64.
 Import ListNotations.
@@ -97,7 +100,9 @@ Definition scalar_payload (k : Z) (e : ev) : sres :=
   match e with
   | EvBool b => if k =? 8 then SBytes [if b then 1 else 0] else SErr      (* OnBool: "param isn't boolType" *)
   | EvStr s =>
-    if k =? 12 then match b64_decode s with Some b => SBytes (lenpref b) | None => SErr end
+    if k =? 12 then
+      (* Go's base64 decoders skip CR and LF *)
+      match b64_decode (filter (fun c => negb ((c =? 10) || (c =? 13))) s) with Some b => SBytes (lenpref b) | None => SErr end
     else if k =? 9 then (if utf8_valid s then SBytes (lenpref s) else SErr)
     else SErr
   | EvNum lex =>
@@ -314,7 +319,10 @@ Section Denote.
       | LRepeated p =>
         match v with
         | JArr xs =>
-          let packed := p && type_numeric (fd_type fd) in       (* proto3 default, or [packed=false] *)
+          (* proto3 packs numeric element types; a field declared [packed=false] is outside the modelled schemas (wf_msg
+             rejects the value below), the converter writes it unpacked *)
+          let packed := type_numeric (fd_type fd) in
+          if strict && packed && negb p then RUndef else
           res_bind (den_elems (fd_type fd) xs) (fun vs =>
           match vs with
           | [] => if strict && packed then RUndef else ROk None  (* as coded: [] of a packed field is written as an empty run (tag, 0): same message, other bytes *)
